@@ -14,6 +14,9 @@ CLAIMED = {
  "C03": ("explicit-state search over statement sequences inside a victim transaction ended by explicit or conflict abort, differential snapshot before Begin / after Abort, on the real database, per index kind",
          "For each of four index kinds and two seeds every statement sequence (<=2, thorough <=3) over insert / in-place, growing(relocating), shrinking, key-changing update / delete / same row twice inside the victim, ended by an explicit abort or by a lock conflict with a reading transaction, preceded by a committed statement and followed by committed inserts re-using the space, is run on the real engine; full scan plus every index point/range answer before Begin must equal the answers after Abort.",
          "hash index without UPDATE and reached through the plan API, unique index without duplicate keys, indexed varchar <= 700 bytes (declared limitations)", "§4 C03"),
+ "C06": ("bounded-exhaustive input enumeration on the real SQL path: all predicate trees up to 2 (thorough 3) leaves x adversarial and all small table contents x select lists x DML forms, every cost-minimal plan (plan-choice hook), against a row model",
+         "For three schemas (INT/INT, INT/FLOAT, INT/VARCHAR): adversarial contents (duplicates, boundary integers, -0.0/denormal/huge floats, empty/quoted/600-byte strings, 2-page table) with ALL predicate trees over = <> < <= > >= AND/OR up to the leaf bound, plus all multisets of <=2 (thorough <=3) rows with all single-leaf predicates and a stride of the deeper ones; every select list; UPDATE with every SET order, DELETE, single/multi-row and reordered-column INSERT, adversarial literal forms. Each statement is executed on the real engine under every cost-minimal plan and compared with the row model.",
+         "supported subset as stated in the evidence file (column op constant, no NULL through SQL, no ORDER BY); statistics in their initial state", "§4 C06"),
  "C07": ("explicit-state search over committed/aborted transaction and restart histories; at every quiescent point plan-level index scans are compared with scan-path reads of the heap",
          "Every history up to the depth bound of auto-commit statements, 1-2 statement transactions ended by commit or abort, clean and crash restarts, per index kind (skip list, unique skip list, B-tree, hash) and seed; whenever no transaction is open every key of the domain is looked up through the index (plan API, so the index is really used) and compared with the rows of the heap holding that key; range scans must return exactly the in-range rows, once, in key order; unbounded index scan = table.",
          "as C03; crash restarts at quiescent points only", "§4 C07"),
